@@ -63,7 +63,8 @@ fn check_bytes(rep: &Report, case: &Case, samples: &[i32], bytes: &[u8], mode: M
     match &strict {
         Err(e) => {
             ok = false;
-            rep.violation(
+            rep.violation_x(
+                mode == Mode::Mt,
                 &format!("strict_reject|{}", strictflac::clause(e)),
                 &format!("{}: reference decoder cannot decode the stream: {e}", mode.name()),
                 case.json(),
@@ -74,7 +75,8 @@ fn check_bytes(rep: &Report, case: &Case, samples: &[i32], bytes: &[u8], mode: M
             if f.samples != samples {
                 ok = false;
                 let at = f.samples.iter().zip(samples.iter()).position(|(a, b)| a != b);
-                rep.violation(
+                rep.violation_x(
+                mode == Mode::Mt,
                     "samples_differ|strictflac",
                     &format!(
                         "{}: decoded samples differ from the input (decoded {} values, input {}, first difference at {:?})",
@@ -89,7 +91,8 @@ fn check_bytes(rep: &Report, case: &Case, samples: &[i32], bytes: &[u8], mode: M
             }
             if f.info.rate != inp.rate || f.info.channels != inp.ch as u32 || f.info.bps != inp.bps as u32 {
                 ok = false;
-                rep.violation(
+                rep.violation_x(
+                mode == Mode::Mt,
                     "format_fields|strictflac",
                     &format!(
                         "{}: stream states rate={} ch={} bps={}, input has rate={} ch={} bps={}",
@@ -139,7 +142,8 @@ fn check_bytes(rep: &Report, case: &Case, samples: &[i32], bytes: &[u8], mode: M
         Err(e) => {
             ok = false;
             let reason: String = e.chars().filter(|c| !c.is_ascii_digit()).take(60).collect();
-            rep.violation(
+            rep.violation_x(
+                mode == Mode::Mt,
                 &format!("claxon_reject|{reason}"),
                 &format!("{}: claxon cannot decode the stream: {e}", mode.name()),
                 case.json(),
@@ -149,7 +153,8 @@ fn check_bytes(rep: &Report, case: &Case, samples: &[i32], bytes: &[u8], mode: M
         Ok(c) => {
             if c.samples != samples {
                 ok = false;
-                rep.violation(
+                rep.violation_x(
+                mode == Mode::Mt,
                     "samples_differ|claxon",
                     &format!("{}: claxon decodes {} values, input has {}", mode.name(), c.samples.len(), samples.len()),
                     case.json(),
@@ -158,7 +163,8 @@ fn check_bytes(rep: &Report, case: &Case, samples: &[i32], bytes: &[u8], mode: M
             }
             if c.rate != inp.rate || c.channels != inp.ch as u32 || c.bps != inp.bps as u32 {
                 ok = false;
-                rep.violation(
+                rep.violation_x(
+                mode == Mode::Mt,
                     "format_fields|claxon",
                     &format!("{}: claxon reports rate={} ch={} bps={}", mode.name(), c.rate, c.channels, c.bps),
                     case.json(),
